@@ -6,6 +6,7 @@ from ..core import astq
 from ..core.cfg import guards_of, ENTRY, EXIT, EXC
 from ..core.dataflow import assigned_value
 from . import common as K
+from . import flowalg
 
 EXPLANATION = (
     "R07a: in Population.initialize_compartments the insertion of the solved compartment sizes is dominated by three refusal guards - global residual, negative "
@@ -23,6 +24,7 @@ def run(ctx):
     ctx.each(r07d, ctx, repo)
     ctx.each(informational, ctx, repo)
     ctx.each(r07e, ctx, repo)
+    ctx.each(flowalg.accumulator_rule, ctx, repo, "R07f", [("model", "Characteristic.update"), ("model", "Characteristic.vals")], 4, "the characteristic sums")
 
 
 def _raised_class(r):
